@@ -15,12 +15,12 @@ use crate::case::{Actor, Case, Op, PoolRef};
 use crate::gen::*;
 
 pub const STRIDE: u64 = 125; // divides gen::CHUNK, so a group never spans two worker processes
-pub const ENUM: u64 = 100;
+pub const ENUM: u64 = 50;
 pub const TIMEOUT_NS: u64 = 1_000_000_000;
 
 thread_local! {
-   /// group -> (readings of the uninterrupted dry run)
-   static DRY: RefCell<BTreeMap<(u64, u64), u64>> = RefCell::new(BTreeMap::new());
+   /// group -> (readings of the uninterrupted dry run, reading indices of its deadline checks)
+   static DRY: RefCell<BTreeMap<(u64, u64), (u64, Vec<u64>)>> = RefCell::new(BTreeMap::new());
    pub static GROUP_STATS: RefCell<GroupStats> = RefCell::new(GroupStats::default());
 }
 
@@ -73,27 +73,30 @@ fn strike(k: u64) -> Op {
    Op::RunTimeout { pool: PoolRef::Global, timeout_ns: TIMEOUT_NS, tick_ns: 0, jumps: vec![(k, TIMEOUT_NS)] }
 }
 
-fn dry_readings(seed: u64, group: u64, base: &Case) -> u64 {
+fn dry_readings(seed: u64, group: u64, base: &Case) -> (u64, Vec<u64>) {
    if let Some(r) = DRY.with(|d| d.borrow().get(&(seed, group)).cloned()) {
       return r;
    }
    let mut dry = base.clone();
-   // stalled clock: run_timeout must return true (bounded liveness) and we learn R
-   dry.actors[0].ops.push(Op::RunTimeout { pool: PoolRef::Global, timeout_ns: TIMEOUT_NS, tick_ns: 0, jumps: vec![] });
+   // a clock that ticks 1 ns per reading never reaches the deadline, makes every instant distinct
+   // and so lets the virtual clock tell which readings are deadline checks (`elapsed()` evaluated
+   // on the call's start instant): one crash point per deadline check
+   dry.actors[0].ops.push(Op::RunTimeout { pool: PoolRef::Global, timeout_ns: TIMEOUT_NS, tick_ns: 1, jumps: vec![] });
    let obs = crate::exec::execute(&dry);
    let r = obs.counters.clock_readings;
-   DRY.with(|d| d.borrow_mut().insert((seed, group), r));
+   let checks = verif_rt::clock::deadline_checks();
+   DRY.with(|d| d.borrow_mut().insert((seed, group), (r, checks.clone())));
    GROUP_STATS.with(|g| {
       let mut g = g.borrow_mut();
       g.groups += 1;
-      if r <= ENUM {
+      if (checks.len() as u64) < ENUM {
          g.exhaustive_groups += 1;
       } else {
          g.truncated_groups += 1;
       }
-      g.readings_enumerated += r.min(ENUM);
+      g.readings_enumerated += (checks.len() as u64).min(ENUM - 1);
    });
-   r
+   (r, checks)
 }
 
 pub fn gen_case(seed: u64, index: u64, thorough: bool) -> Option<Case> {
@@ -101,7 +104,7 @@ pub fn gen_case(seed: u64, index: u64, thorough: bool) -> Option<Case> {
    let slot = index % STRIDE;
    let (mut case, def) = group_base(seed, group);
    case.index = index;
-   let r = dry_readings(seed, group, &case);
+   let (r, checks) = dry_readings(seed, group, &case);
    let mut rng = Rng::new(case_seed(seed, "C14", index) ^ 0x14);
    let ops = &mut case.actors[0].ops;
    if slot == 0 {
@@ -111,10 +114,10 @@ pub fn gen_case(seed: u64, index: u64, thorough: bool) -> Option<Case> {
       return Some(case);
    }
    if slot < ENUM {
-      let k = slot; // k in 1..ENUM-1 ; reading 0 is `__start_time` itself
-      if k > r {
-         return None; // beyond the last reading of the uninterrupted run: nothing new to observe
-      }
+      // the (slot)-th deadline check of the uninterrupted run is the crash point
+      let Some(&k) = checks.get(slot as usize - 1) else {
+         return None; // the run has fewer deadline checks: nothing new to observe
+      };
       ops.push(strike(k));
       ops.push(Op::Run { pool: PoolRef::Global });
       case.label.push_str("/strike-enum");
